@@ -1,16 +1,25 @@
-#!/bin/bash
-# confirm_mut.sh <worktree> <patch> <demo.rs> : confirms a seeded change in its scratch worktree:
-#   suite passes with the change (modulo the 2 baseline failures), demo fails with it and passes without it.
-WT="$1"; PATCH="$2"; DEMO="$3"; NAME=$(basename "$DEMO" .rs)
-export CARGO_NET_OFFLINE=true CARGO_TARGET_DIR="$WT/target"
-cd "$WT" || exit 2
-git checkout -q -- src; rm -f tests/demo_*.rs tests/$NAME.rs
-git apply "$PATCH" || { echo "RESULT patch-does-not-apply"; exit 2; }
-cargo test --offline --no-fail-fast >"$WT/_out/confirm_suite_$NAME.log" 2>&1
-FAILED=$(grep -E "^test .* FAILED$|^test .*\.\.\. FAILED" "$WT/_out/confirm_suite_$NAME.log" | grep -v "peek_test" | grep -v "src/lib.rs - (line 33)" | sort -u)
-cp "$DEMO" tests/$NAME.rs
-cargo test --offline --test $NAME >"$WT/_out/confirm_demo_with_$NAME.log" 2>&1; WITH=$?
+#!/bin/sh
+# tools/confirm_mut.sh <Cxx> <n> [extra cargo test args for the demo, e.g. "--features verif"]
+# Confirms, in the scratch worktree /tmp/mut/<Cxx>, that seeded change <n> (a) leaves the existing suite at its baseline,
+# (b) makes its demonstration fail, which (c) passes without it. Writes /tmp/mut/<Cxx>/_out/confirm<n>.json
+P="$1"; N="$2"; EXTRA="$3"
+W=/tmp/mut/$P; O=$W/_out
+cd "$W" || exit 2
+export CARGO_TARGET_DIR=$W/target CARGO_NET_OFFLINE=true
+git checkout -q -- src; rm -f tests/demo_mut*.rs
+cp "$O/demo$N.rs" tests/demo_mut$N.rs
+cargo test --offline -j 8 $EXTRA --test demo_mut$N > "$O/confirm$N.demo_without.log" 2>&1; DEMO_WITHOUT=$?
+git apply "$O/patch$N.diff" || { echo "patch does not apply"; exit 2; }
+cargo test --offline -j 8 $EXTRA --test demo_mut$N > "$O/confirm$N.demo_with.log" 2>&1; DEMO_WITH=$?
+rm -f tests/demo_mut$N.rs
+cargo test --offline -j 8 --no-fail-fast > "$O/confirm$N.suite_with.log" 2>&1
+FAILED=$(grep -E "^test .* \.\.\. FAILED|^    [a-z_:]+ *$" "$O/confirm$N.suite_with.log" | grep -E "FAILED" | sed 's/ \.\.\. FAILED//; s/^test //' | sort -u | tr '\n' ';')
+# timing-flaky tests (also on the unmodified tree): re-run alone
+for t in multi::tests::undegradable_latencies multi::tests::async_elements; do
+  case "$FAILED" in *"$t"*)
+    if cargo test --offline -j 8 --lib "$t" > "$O/confirm$N.rerun.log" 2>&1; then FAILED=$(echo "$FAILED" | sed "s/$t;//"); fi ;;
+  esac
+done
 git checkout -q -- src
-cargo test --offline --test $NAME >"$WT/_out/confirm_demo_without_$NAME.log" 2>&1; WITHOUT=$?
-rm -f tests/$NAME.rs
-echo "RESULT suite_extra_failures=[$(echo $FAILED | tr '\n' ' ')] demo_with_patch_exit=$WITH demo_without_patch_exit=$WITHOUT"
+printf '{"property":"%s","n":%s,"demo_without_patch_exit":%s,"demo_with_patch_exit":%s,"suite_failures_with_patch":"%s"}\n' "$P" "$N" "$DEMO_WITHOUT" "$DEMO_WITH" "$FAILED" > "$O/confirm$N.json"
+cat "$O/confirm$N.json"
